@@ -380,6 +380,14 @@ def run_model(prog) -> ModelReport:
         _observers(rep, evaluate, dl, els, DL)
         # construction, pickling, bulk insert without check, replace on id
         _construction(rep, it, DL, methods, evaluate, els)
+    # an identifier is any string, the empty one included: an element whose identifier is falsy is found like any other
+    els = [El(""), El("a")]
+    dl = DL.__new__(DL)
+    list.__init__(dl)
+    list.extend(dl, els)
+    list.__getattribute__(dl, "__dict__")["_dict"] = {e.id: i for i, e in enumerate(els)}
+    rep.states += 1
+    _observers(rep, evaluate, dl, els, DL)
     return rep
 
 
